@@ -521,7 +521,7 @@ func (w *srvWorld) handle(ctx context.Context, req *jrpc2.Request) (any, error) 
 		m.Enter = w.seq()
 	}
 	r.Ev("h.enter", m.Tag, w.running, m.Enters, "")
-	if w.running > w.K {
+	if w.running > w.K && w.cfg.Prop == "C06" {
 		r.Fail("over-limit", "%d handlers running with Concurrency=%d (entering %s)", w.running, w.K, m.Tag)
 	}
 	poll := func() {
@@ -587,7 +587,7 @@ func (w *srvWorld) doPush(ctx context.Context, m *member) {
 func (w *srvWorld) LogRequest(ctx context.Context, req *jrpc2.Request) {
 	if req.Method() == "rpc.serverInfo" {
 		w.r.Ev("log.req", "rpc.serverInfo", w.running, 0, req.ID())
-		if w.running+1 > w.K {
+		if w.running+1 > w.K && w.cfg.Prop == "C06" {
 			w.r.Fail("over-limit", "built-in rpc.serverInfo (id %s) invoked while %d handlers hold all %d slots", req.ID(), w.running, w.K)
 		}
 		for _, msg := range w.msgs {
@@ -604,7 +604,7 @@ func (w *srvWorld) LogRequest(ctx context.Context, req *jrpc2.Request) {
 	req.UnmarshalParams(&p)
 	if m := w.byTag[p.T]; m != nil && m.Logged < 0 {
 		m.Logged = w.seq()
-		if w.running+1 > w.K {
+		if w.running+1 > w.K && w.cfg.Prop == "C06" {
 			w.r.Fail("over-limit", "request %s logged (slot acquired) while %d handlers already hold all %d slots", m.Tag, w.running, w.K)
 		}
 	}
